@@ -24,7 +24,7 @@ from sa.astx import NotConst, assigned_targets, call_name, dotted, src, walk_loc
 __all__ = [
     "NONNULL", "FALSY", "FALSY_NONNULL", "peval", "test_value", "reach_under", "path_under", "must_pass_under", "implied",
     "is_self_attr", "self_assigns", "call_nodes", "calls_with", "const_value_is", "written_names", "succ_of",
-    "facts_at", "undecided_tests", "handler_names", "covers", "no_exc", "first_arg", "name_of", "slice_parts", "value_returned", "local_def", "test_value",
+    "facts_at", "undecided_tests", "handler_names", "covers", "no_exc", "first_arg", "name_of", "slice_parts", "value_returned", "local_def", "test_value", "aliases", "abstract_instance", "returns_under", "expand_calls", "peval", "sampled_attribute", "Guarded", "abstain_where_twinned",
 ]
 
 
@@ -39,13 +39,20 @@ class _Abstract:
         return self.truth
 
 
+def abstract_instance(label: str, classes: Iterable[str], not_classes: Iterable[str] = ()) -> _Abstract:
+    """an object of which only the class is known (truthy, not None): ``isinstance(x, C)`` is decided for the listed class names"""
+    a = _Abstract(label, True, False)
+    a.classes, a.not_classes = set(classes), set(not_classes)
+    return a
+
+
 NONNULL = _Abstract("<non-None, truthy>", True, False)
 FALSY_NONNULL = _Abstract("<non-None object that is falsy (empty container, __len__ == 0, __bool__ False)>", False, False)
 FALSY = _Abstract("<falsy>", False, None)
 
 _FUNCS = {
     "len": len, "str": str, "int": int, "bool": bool, "abs": abs, "min": min, "max": max, "ord": ord, "chr": chr,
-    "bytes": bytes, "tuple": tuple, "list": list, "sorted": sorted, "range": range, "sum": sum,
+    "bytes": bytes, "tuple": tuple, "list": list, "sorted": sorted, "range": range, "sum": sum, "memoryview": memoryview,
     "math.ceil": math.ceil, "math.floor": math.floor, "math.log10": math.log10, "math.log": math.log,
     "ceil": math.ceil, "floor": math.floor, "log10": math.log10,
     "calcsize": struct.calcsize, "struct.calcsize": struct.calcsize,
@@ -160,6 +167,17 @@ def peval(node: ast.AST, env: Optional[Dict[str, object]] = None):
             raise NotConst(str(e))
     if isinstance(node, ast.Call) and not node.keywords:
         fn = dotted(node.func)
+        if fn == "isinstance" and len(node.args) == 2:
+            v = peval(node.args[0], env)
+            kinds = getattr(v, "classes", None)
+            if kinds is not None:
+                asked = node.args[1].elts if isinstance(node.args[1], ast.Tuple) else [node.args[1]]
+                names = [(dotted(a) or "?").split(".")[-1] for a in asked]
+                if any(n in kinds for n in names):
+                    return True
+                if all(n in getattr(v, "not_classes", ()) for n in names):
+                    return False
+            raise NotConst("isinstance")
         if fn in _FUNCS:
             args = [peval(a, env) for a in node.args]
             if any(isinstance(a, _Abstract) for a in args):
@@ -351,6 +369,26 @@ def facts_at(g, facts, nodes: Iterable[int], srcs: Optional[Iterable[int]] = Non
     return [dict(f) for n, f in prev if n in nodes]
 
 
+def returns_under(g, facts, srcs: Optional[Iterable[int]] = None) -> List[Tuple[int, object]]:
+    """(node, value) for every way the function can end normally from ``srcs`` under ``facts``: the value of the returned expression under the facts on
+    arrival (``NotConst`` class itself when not determined); falling off the end is (exit, None)."""
+    prev = _explore(g, facts, list(srcs) if srcs is not None else [g.entry], (), False)
+    out = []
+    for (n, f), before in prev.items():
+        node = g.nodes[n]
+        if node.kind == "stmt" and isinstance(node.ast, ast.Return):
+            if node.ast.value is None:
+                out.append((n, None))
+                continue
+            try:
+                out.append((n, peval(node.ast.value, dict(f))))
+            except NotConst:
+                out.append((n, NotConst))
+        elif n == g.exit and before is not None and not (g.nodes[before[0]].kind == "stmt" and isinstance(g.nodes[before[0]].ast, ast.Return)):
+            out.append((n, None))
+    return out
+
+
 def undecided_tests(g, facts, srcs: Optional[Iterable[int]] = None, avoid: Iterable[int] = ()) -> List[int]:
     """Test nodes reached (from ``srcs`` under ``facts``) whose outcome the facts do not determine.  Empty = the fact set is a
     complete description of everything the explored region branches on (the basis of a finite-exhaustive claim)."""
@@ -384,9 +422,29 @@ def _resolved_test(g, t: int):
         defs = [n for n in g.nodes if n.kind == "stmt" and g.reachable(n.id) and isinstance(n.ast, ast.Assign) and len(n.ast.targets) == 1
                 and isinstance(n.ast.targets[0], ast.Name) and n.ast.targets[0].id == e.id]
         others = [n for n in g.nodes if n.ast is not None and n.kind in ("stmt", "for", "with") and n not in defs and e.id in written_names(n.ast)]
-        if len(defs) == 1 and not others and g.dominates(defs[0].id, t):
+        mutated = any(isinstance(c, ast.Call) and isinstance(c.func, ast.Attribute) and c.func.attr in _MUTATORS and dotted(c.func.value) == e.id
+                      for n in g.nodes if n.ast is not None for c in walk_local(n.ast))          # a list emptied by pop() is not what it was when sampled
+        if len(defs) == 1 and not others and not mutated and g.dominates(defs[0].id, t):
             return defs[0].ast.value, defs[0].id
     return e, t
+
+
+def _implied_by_evaluation(g, n, good, bad, after) -> bool:
+    """The same question decided by following the paths: with the bad facts holding on entry (or right after an ``after`` node) node ``n`` is not
+    reached, with the good facts it is.  Locals holding a sampled attribute or a named condition, guard clauses and single-exit shapes are all
+    just paths here."""
+    srcs = [s for a in after for s, l in g.succ[a] if l != "exc"] if after else None
+    if after and not srcs:
+        return False
+    if not bad:
+        return False
+    for f in bad:
+        if n in reach_under(g, f, srcs=srcs):
+            return False
+    for f in good:
+        if n not in reach_under(g, f, srcs=srcs):
+            return False
+    return True
 
 
 def implied(g, n: int, good: Sequence[Dict[str, object]], bad: Sequence[Dict[str, object]], after: Iterable[int] = ()) -> bool:
@@ -394,6 +452,8 @@ def implied(g, n: int, good: Sequence[Dict[str, object]], bad: Sequence[Dict[str
     does not take (the test is decided, with the opposite outcome, under bad).  With ``after``, the test must
     be evaluated at a point dominated by one of those nodes (i.e. on the state they produce)."""
     after = list(after)
+    if _implied_by_evaluation(g, n, good, bad, after):
+        return True
     for t, lab in g.edge_guards(n):
         pol = lab == "T"
         cands = [(g.nodes[t].ast, t)]
@@ -454,12 +514,87 @@ def self_assigns(g, attr: str, value_pred: Optional[Callable[[ast.AST], bool]] =
     return out
 
 
+def _local_bindings(func) -> Dict[str, List[Optional[str]]]:
+    """{local name: [text of the expression bound by each binding of the name, None for a binding that is not a plain (tuple-)assignment]}"""
+    defs: Dict[str, List[Optional[str]]] = {}
+    for st in walk_local(func):
+        if isinstance(st, ast.NamedExpr):
+            defs.setdefault(st.target.id, []).append(src(st.value))
+        elif isinstance(st, (ast.Assign, ast.AugAssign, ast.AnnAssign, ast.For, ast.AsyncFor, ast.With, ast.AsyncWith)):
+            pairs = []
+            if isinstance(st, ast.Assign):
+                for t in st.targets:
+                    if isinstance(t, (ast.Tuple, ast.List)) and isinstance(st.value, (ast.Tuple, ast.List)) and len(t.elts) == len(st.value.elts):
+                        pairs.extend(zip(t.elts, st.value.elts))
+                    else:
+                        pairs.append((t, st.value))
+            for t, v in pairs:
+                if isinstance(t, ast.Name):
+                    defs.setdefault(t.id, []).append(src(v))
+            done = {t.id for t, _ in pairs if isinstance(t, ast.Name)}
+            for t in assigned_targets(st):
+                for x in ast.walk(t):
+                    if isinstance(x, ast.Name) and isinstance(x.ctx, ast.Store) and x.id not in done:
+                        defs.setdefault(x.id, []).append(None)
+    for a in getattr(getattr(func, "args", None), "args", []) or []:
+        defs.setdefault(a.arg, []).append(None)
+    return defs
+
+
+def aliases(func, expr: str) -> Set[str]:
+    """Local names that only ever hold a sample of ``expr``: every binding of the name in ``func`` is a plain ``name = expr`` (also as an element
+    of a tuple assignment) or ``name = <another such name>``."""
+    defs = _local_bindings(func)
+    out: Set[str] = set()
+    changed = True
+    while changed:
+        changed = False
+        for n, vs in defs.items():
+            if n not in out and vs and all(v is not None and (v == expr or v in out or v == n) for v in vs) and any(v != n for v in vs):
+                out.add(n)
+                changed = True
+    return out
+
+
+def sampled_attribute(func, name: str) -> Optional[str]:
+    """``self.x`` when the local ``name`` only ever holds a sample of that attribute, else None"""
+    defs = _local_bindings(func)
+    seen = set()
+    cur = name
+    while cur not in seen:
+        seen.add(cur)
+        vs = [v for v in defs.get(cur, []) if v != cur]
+        if not vs or any(v is None for v in vs) or len(set(vs)) != 1:
+            return None
+        v = vs[0]
+        if re.fullmatch(r"self\.\w+", v):
+            return v if name in aliases(func, v) else None
+        if not re.fullmatch(r"\w+", v):
+            return None
+        cur = v
+    return None
+
+
+def _callee(g, x: ast.Call) -> Optional[str]:
+    """dotted callee; a receiver that is a local sample of an attribute (``p = self.producer`` ... ``p.stop()``) is read as the attribute"""
+    d = call_name(x)
+    if d and "." in d:
+        head, rest = d.split(".", 1)
+        if head not in ("self", "cls"):
+            cache = g.__dict__.setdefault("_alias_cache", {})
+            if head not in cache:
+                cache[head] = sampled_attribute(g.func, head)
+            if cache[head]:
+                return cache[head] + "." + rest
+    return d
+
+
 def call_nodes(g, *names: str) -> List[int]:
     """CFG nodes containing a call whose dotted callee is one of ``names`` (".x" = any receiver)."""
     def pred(x):
         if not isinstance(x, ast.Call):
             return False
-        d = call_name(x)
+        d = _callee(g, x)
         for nm in names:
             if nm.startswith("."):
                 if isinstance(x.func, ast.Attribute) and x.func.attr == nm[1:]:
@@ -479,7 +614,7 @@ def calls_with(g, *names: str) -> List[Tuple[int, ast.Call]]:
         for r in roots:
             for x in walk_local(r):
                 if isinstance(x, ast.Call):
-                    d = call_name(x)
+                    d = _callee(g, x)
                     for nm in names:
                         if (nm.startswith(".") and isinstance(x.func, ast.Attribute) and x.func.attr == nm[1:]) or d == nm:
                             out.append((n, x))
@@ -1538,41 +1673,395 @@ def _as_expression(stmts):
 class Inliner:
     """``Inliner(mod, cls_names, known)``: ``known`` = method names the rules are written against (never inlined)."""
 
-    def __init__(self, mod, cls_names: Sequence[str], known: Iterable[str], depth: int = 3):
+    def __init__(self, mod, cls_names: Sequence[str], known: Iterable[str], depth: int = 3, extended: bool = False):
+        """``extended``: also read through static / class-method helpers, tuple assignments (split into single assignments), loops over private
+        generator helpers and ``with`` blocks on context managers defined in the module.  Off by default: other checkers that share this class
+        were written against the plain behaviour."""
         from sa.source import mro_lookup
-        self.mod, self.known, self.depth = mod, set(known), depth
+        self.mod, self.known, self.depth, self.extended = mod, set(known), depth, extended
         self.classes = [c for c in mod.classes() if c.name in cls_names]
         self._lookup = lambda name: next((r[1] for c in self.classes for r in [mro_lookup(mod, c, name)] if r and isinstance(r[1], (ast.FunctionDef,))), None)
         self.inlined: Set[str] = set()        # helper names whose every visited call site was inlined
         self.refused: Dict[str, str] = {}
         self._views: Dict[int, ast.AST] = {}
 
+    def _callee(self, call):
+        """(helper function, number of leading parameters bound implicitly) for a call of a private helper of the analysed classes:
+        ``self.h(..)``, ``cls.h(..)``, ``type(self).h(..)`` or ``ClassName.h(..)`` - plain, static or class method."""
+        if not (isinstance(call, ast.Call) and isinstance(call.func, ast.Attribute)) or call.keywords:
+            return None
+        recv, name = call.func.value, call.func.attr
+        if name in self.known:
+            return None
+        via_instance = isinstance(recv, ast.Name) and recv.id == "self"
+        via_class = (isinstance(recv, ast.Name) and (recv.id == "cls" or recv.id in {c.name for c in self.classes})) or src(recv) in ("type(self)", "self.__class__")
+        if not (via_instance or via_class):
+            return None
+        if not self.extended and not via_instance:
+            return None
+        h = self._lookup(name)
+        if h is None or (h.args.vararg or h.args.kwarg or h.args.kwonlyargs):
+            return None
+        if not self.extended and h.decorator_list:
+            return None
+        decos = [dotted(d) for d in h.decorator_list]
+        if decos == ["staticmethod"]:
+            skip = 0
+        elif decos == ["classmethod"]:
+            skip = 1
+        elif not decos and via_instance:
+            skip = 1
+        else:
+            return None
+        if len(h.args.args) - skip != len(call.args):
+            return None
+        if skip and any(isinstance(x, ast.Name) and x.id == h.args.args[0].arg and decos for x in walk_local(h)):
+            return None                   # a classmethod that uses cls
+        return h, skip
+
     def helper_of(self, call):
-        if isinstance(call, ast.Call) and isinstance(call.func, ast.Attribute) and isinstance(call.func.value, ast.Name) and call.func.value.id == "self" \
-                and call.func.attr not in self.known and not call.keywords:
-            h = self._lookup(call.func.attr)
-            if h is not None and not h.decorator_list and not (h.args.vararg or h.args.kwarg or h.args.kwonlyargs) \
-                    and len(h.args.args) - 1 == len(call.args) and not any(isinstance(x, (ast.Yield, ast.YieldFrom, ast.Await)) for x in walk_local(h)):
-                return h
-        return None
+        r = self._callee(call)
+        if r is None or any(isinstance(x, (ast.Yield, ast.YieldFrom, ast.Await)) for x in walk_local(r[0])):
+            return None
+        return r[0]
+
+    def generator_of(self, call):
+        r = self._callee(call)
+        if r is None or not any(isinstance(x, (ast.Yield, ast.YieldFrom)) for x in walk_local(r[0])):
+            return None
+        return r[0]
 
     def _body(self, h, call):
         body = [s for s in _clone(h.body) if not (isinstance(s, ast.Expr) and isinstance(s.value, ast.Constant) and isinstance(s.value.value, str))]
-        params = [a.arg for a in h.args.args[1:]]
+        skip = self._callee(call)[1]
+        params = [a.arg for a in h.args.args[skip:]]
         rebound = {t.id for s in walk_local(ast.Module(body=body, type_ignores=[])) if isinstance(s, (ast.Assign, ast.AugAssign, ast.For))
                    for t in ([s.target] if not isinstance(s, ast.Assign) else s.targets) if isinstance(t, ast.Name)}
         if rebound & set(params):
             raise _NoInline("parameter re-bound in helper")
-        sub = _Subst(dict(zip(params, call.args)))
+        mapping = dict(zip(params, call.args))
+        if skip and not h.decorator_list and h.args.args[0].arg != "self":
+            mapping[h.args.args[0].arg] = ast.Name(id="self", ctx=ast.Load())
+        sub = _Subst(mapping)
         return [sub.visit(s) for s in body]
+
+    # ---- statement-level normalisations -------------------------------------------------------------------------------------------
+    def _split_tuple_assign(self, st):
+        """``a, b = x, y`` -> one assignment per element (through temporaries when a later value reads an earlier target);
+        ``a, b = (x, y) if c else (z, w)`` -> an if statement."""
+        if not (isinstance(st, ast.Assign) and len(st.targets) == 1 and isinstance(st.targets[0], (ast.Tuple, ast.List))):
+            return None
+        tgt, val = st.targets[0], st.value
+        if any(isinstance(t, ast.Starred) for t in tgt.elts):
+            return None
+        if isinstance(val, ast.IfExp):
+            arms = []
+            for arm in (val.body, val.orelse):
+                sub = self._split_tuple_assign(ast.Assign(targets=[_clone(tgt)], value=arm, lineno=st.lineno))
+                if sub is None:
+                    return None
+                arms.append(sub)
+            return [ast.If(test=val.test, body=arms[0], orelse=arms[1])]
+        if not (isinstance(val, (ast.Tuple, ast.List)) and len(val.elts) == len(tgt.elts)) or any(isinstance(v, ast.Starred) for v in val.elts):
+            return None
+        hazard = False
+        for i, t in enumerate(tgt.elts):
+            key = src(t)
+            for v in val.elts[i + 1:]:
+                if any(src(x) == key for x in ast.walk(v) if isinstance(x, (ast.Name, ast.Attribute, ast.Subscript))):
+                    hazard = True
+        if not hazard:
+            return [ast.Assign(targets=[t], value=v, lineno=st.lineno) for t, v in zip(tgt.elts, val.elts)]
+        self._tmp = getattr(self, "_tmp", 0) + 1
+        names = [f"_tup{self._tmp}_{i}" for i in range(len(tgt.elts))]
+        out = [ast.Assign(targets=[ast.Name(id=n, ctx=ast.Store())], value=v, lineno=st.lineno) for n, v in zip(names, val.elts)]
+        out += [ast.Assign(targets=[t], value=ast.Name(id=n, ctx=ast.Load()), lineno=st.lineno) for n, t in zip(names, tgt.elts)]
+        return out
+
+    def _unroll_for(self, st):
+        """``for x in (<up to 8 constants>): BODY`` -> BODY once per constant (no break / continue / else)"""
+        if not isinstance(st, ast.For) or st.orelse or not isinstance(st.target, ast.Name) or not isinstance(st.iter, (ast.Tuple, ast.List)):
+            return None
+        if not (0 < len(st.iter.elts) <= 8) or not all(isinstance(e, ast.Constant) for e in st.iter.elts):
+            return None
+        if any(isinstance(x, (ast.Break, ast.Continue)) for b in st.body for x in ast.walk(b)):
+            return None
+        if any(isinstance(x, ast.Name) and x.id == st.target.id and isinstance(x.ctx, (ast.Store, ast.Del)) for b in st.body for x in ast.walk(b)):
+            return None
+        out = []
+        for e in st.iter.elts:
+            out.extend(_Subst({st.target.id: e}).visit(b) for b in _clone(st.body))
+        return out
+
+    def _attr_builtins(self, st):
+        """``delattr(o, "a")`` -> ``del o.a``; ``setattr(o, "a", v)`` -> ``o.a = v`` (constant, identifier-like names only)"""
+        if not (isinstance(st, ast.Expr) and isinstance(st.value, ast.Call) and isinstance(st.value.func, ast.Name) and not st.value.keywords):
+            return None
+        c = st.value
+        if c.func.id == "delattr" and len(c.args) == 2 and isinstance(c.args[1], ast.Constant) and isinstance(c.args[1].value, str) and c.args[1].value.isidentifier():
+            return [ast.Delete(targets=[ast.Attribute(value=c.args[0], attr=c.args[1].value, ctx=ast.Del())])]
+        if c.func.id == "setattr" and len(c.args) == 3 and isinstance(c.args[1], ast.Constant) and isinstance(c.args[1].value, str) and c.args[1].value.isidentifier():
+            return [ast.Assign(targets=[ast.Attribute(value=c.args[0], attr=c.args[1].value, ctx=ast.Store())], value=c.args[2], lineno=st.lineno)]
+        return None
+
+    def _expand_for(self, st):
+        """``for x in self._gen(..): BODY`` with a private generator helper -> the generator's own loop with ``x = <yielded>; BODY`` in place of each yield."""
+        if not isinstance(st, ast.For) or st.orelse:
+            return None
+        h = self.generator_of(st.iter)
+        if h is None:
+            return None
+        body = self._body(h, st.iter)
+        top = ast.Module(body=body, type_ignores=[])
+        yields = [x for x in walk_local(top) if isinstance(x, (ast.Yield, ast.YieldFrom))]
+        stmts_with_yield = [x for x in walk_local(top) if isinstance(x, ast.Expr) and isinstance(x.value, ast.Yield)]
+        if len(yields) != len(stmts_with_yield) or _has_return(top):
+            raise _NoInline("generator helper with a yield inside an expression, yield from, or a return")
+
+        def jumps(stmts):
+            for s in stmts:
+                if isinstance(s, (ast.Break, ast.Continue)):
+                    return True
+                if isinstance(s, (ast.For, ast.While, ast.FunctionDef, ast.AsyncFunctionDef, ast.ClassDef)):
+                    continue
+                for f in ("body", "orelse", "finalbody"):
+                    if jumps(getattr(s, f, []) or []):
+                        return True
+                for hd in getattr(s, "handlers", []) or []:
+                    if jumps(hd.body):
+                        return True
+            return False
+        if jumps(st.body):
+            raise _NoInline("break / continue in the body of a loop over a generator helper")
+        consumer, target = st.body, st.target
+
+        class Y(ast.NodeTransformer):
+            def visit_Expr(self, node):
+                if isinstance(node.value, ast.Yield):
+                    v = node.value.value if node.value.value is not None else ast.Constant(None)
+                    return [ast.Assign(targets=[_clone(target)], value=v, lineno=st.lineno)] + _clone(consumer)
+                return node
+
+            def visit_FunctionDef(self, node):
+                return node
+            visit_Lambda = visit_AsyncFunctionDef = visit_FunctionDef
+        out = []
+        for b in body:
+            r = Y().visit(b)
+            out.extend(r if isinstance(r, list) else [r])
+        self.inlined.add(st.iter.func.attr)
+        return out
+
+    def _context_manager(self, expr):
+        """(enter statements, exit statements, value bound by ``as``) for ``with X(..)`` where X is a class of the module with __enter__/__exit__ or a
+        @contextmanager generator (module-level or a private helper); None when ``expr`` is not one of those."""
+        if not isinstance(expr, ast.Call) or expr.keywords:
+            return None
+        fn = None
+        if isinstance(expr.func, ast.Name):
+            fn = next((n for n in self.mod.tree.body if isinstance(n, (ast.FunctionDef, ast.ClassDef)) and n.name == expr.func.id), None)
+        if isinstance(fn, ast.ClassDef):
+            ms = {m.name: m for m in fn.body if isinstance(m, ast.FunctionDef)}
+            if "__enter__" not in ms or "__exit__" not in ms or fn.bases and any(dotted(b) not in ("object",) for b in fn.bases):
+                return None
+            held: Dict[str, ast.AST] = {}
+            init = ms.get("__init__")
+            if init is not None:
+                params = [a.arg for a in init.args.args[1:]]
+                if len(params) != len(expr.args) or init.args.vararg or init.args.kwarg or init.args.kwonlyargs:
+                    raise _NoInline("context manager constructed with other than plain positional arguments")
+                given = dict(zip(params, expr.args))
+                for b in init.body:
+                    if isinstance(b, ast.Expr) and isinstance(b.value, ast.Constant):
+                        continue
+                    if isinstance(b, ast.Assign) and len(b.targets) == 1 and is_self_attr(b.targets[0]) and isinstance(b.value, ast.Name) and b.value.id in given:
+                        held[b.targets[0].attr] = given[b.value.id]
+                    elif isinstance(b, ast.Assign) and len(b.targets) == 1 and is_self_attr(b.targets[0]) and isinstance(b.value, ast.Constant):
+                        held[b.targets[0].attr] = b.value
+                    else:
+                        raise _NoInline("context manager __init__ does more than store its arguments")
+            elif expr.args:
+                return None
+            tag = fn.name.lstrip("_")
+
+            class S(ast.NodeTransformer):
+                def visit_Attribute(self, node):
+                    if is_self_attr(node):
+                        if node.attr in held and isinstance(node.ctx, ast.Load):
+                            return _clone(held[node.attr])
+                        return ast.copy_location(ast.Name(id=f"_cm_{tag}_{node.attr}", ctx=node.ctx), node)
+                    return self.generic_visit(node)
+            ex = ms["__exit__"]
+            if any(isinstance(x, ast.Name) and x.id in {a.arg for a in ex.args.args[1:]} | ({ex.args.vararg.arg} if ex.args.vararg else set()) for x in walk_local(ex)):
+                raise _NoInline("context manager __exit__ inspects the exception")
+            enter = [b for b in _clone(ms["__enter__"].body) if not (isinstance(b, ast.Expr) and isinstance(b.value, ast.Constant))]
+            leave = [b for b in _clone(ex.body) if not (isinstance(b, ast.Expr) and isinstance(b.value, ast.Constant))]
+            bound = None
+            if enter and isinstance(enter[-1], ast.Return):
+                bound = enter.pop().value
+            if leave and isinstance(leave[-1], ast.Return):
+                r = leave.pop().value
+                if r is not None and not (isinstance(r, ast.Constant) and not r.value):
+                    raise _NoInline("context manager __exit__ may swallow the exception")
+            if _has_return(ast.Module(body=enter + leave, type_ignores=[])):
+                raise _NoInline("return in the middle of __enter__ / __exit__")
+            if bound is not None and src(bound) == "self":
+                bound = None if True else bound
+            return [S().visit(b) for b in enter], [S().visit(b) for b in leave], (S().visit(bound) if bound is not None else None), fn.name
+        # @contextmanager generator
+        h = fn if isinstance(fn, ast.FunctionDef) else None
+        skip = 0
+        if h is None and isinstance(expr.func, ast.Attribute) and isinstance(expr.func.value, ast.Name) and expr.func.value.id == "self" \
+                and expr.func.attr not in self.known:
+            h, skip = self._lookup(expr.func.attr), 1
+        if h is None or [(dotted(d) or "").split(".")[-1] for d in h.decorator_list] != ["contextmanager"]:
+            return None
+        if len(h.args.args) - skip != len(expr.args) or h.args.vararg or h.args.kwarg or h.args.kwonlyargs:
+            raise _NoInline("context manager helper called with other than plain positional arguments")
+        body = [b for b in _clone(h.body) if not (isinstance(b, ast.Expr) and isinstance(b.value, ast.Constant))]
+        body = [_Subst(dict(zip([a.arg for a in h.args.args[skip:]], expr.args))).visit(b) for b in body]
+        return ("generator", body, None, h.name)
+
+    def _expand_with(self, st):
+        if not isinstance(st, ast.With) or len(st.items) != 1:
+            return None
+        item = st.items[0]
+        cm = self._context_manager(item.context_expr)
+        if cm is None:
+            return None
+        if cm[0] == "generator":
+            body = cm[1]
+            top = ast.Module(body=body, type_ignores=[])
+            ys = [x for x in walk_local(top) if isinstance(x, ast.Expr) and isinstance(x.value, ast.Yield)]
+            if len(ys) != 1 or len([x for x in walk_local(top) if isinstance(x, (ast.Yield, ast.YieldFrom))]) != 1 or _has_return(top):
+                raise _NoInline("@contextmanager helper without exactly one plain yield statement")
+            consumer, target = st.body, item.optional_vars
+
+            class Y(ast.NodeTransformer):
+                def visit_Expr(self, node):
+                    if isinstance(node.value, ast.Yield):
+                        pre = []
+                        if target is not None:
+                            pre = [ast.Assign(targets=[_clone(target)], value=node.value.value or ast.Constant(None), lineno=st.lineno)]
+                        return pre + list(consumer)
+                    return node
+            out = []
+            for b in body:
+                r = Y().visit(b)
+                out.extend(r if isinstance(r, list) else [r])
+            self.inlined.add(cm[3])
+            return out
+        enter, leave, bound, name = cm
+        if item.optional_vars is not None:
+            if bound is None:
+                raise _NoInline("the context manager object itself is bound by 'as'")
+            enter = enter + [ast.Assign(targets=[item.optional_vars], value=bound, lineno=st.lineno)]
+        self.inlined.add(name)
+        return enter + [ast.Try(body=list(st.body), handlers=[], orelse=[], finalbody=leave or [ast.Pass()])]
 
     def _stmts(self, stmts, level):
         out = []
+        if self.extended:
+            stmts = self._sink_selected_callable(list(stmts))
         for st in stmts:
             out.extend(self._stmt(st, level))
+        if self.extended:
+            out = self._propagate_callable_locals(out)
         return out
 
+    # ---- a callable (and its argument) selected in the branches of an if, called once after it ---------------------------------------
+    @staticmethod
+    def _called_locals(stmts) -> Set[str]:
+        return {x.func.id for st in stmts for x in walk_local(st) if isinstance(x, ast.Call) and isinstance(x.func, ast.Name)}
+
+    @staticmethod
+    def _assigned_simple(stmts) -> Set[str]:
+        """locals given an attribute / name / tuple-selected value by a plain assignment somewhere in ``stmts`` (nested ifs included)"""
+        out = set()
+        for st in stmts:
+            for x in [st] + ([y for y in ast.walk(st) if isinstance(y, ast.If)] if isinstance(st, ast.If) else []):
+                for b in (getattr(x, "body", []) or []) + (getattr(x, "orelse", []) or []) if isinstance(x, ast.If) else [x]:
+                    if isinstance(b, ast.Assign):
+                        for t in b.targets:
+                            ts = t.elts if isinstance(t, (ast.Tuple, ast.List)) else [t]
+                            out |= {e.id for e in ts if isinstance(e, ast.Name)}
+        return out
+
+    def _sink_selected_callable(self, stmts):
+        """``if c: f = a  else: f = b`` followed by ``... f(x) ...``  ->  the rest of the block is moved into both branches (tail duplication is
+        always behaviour-preserving), where ``f`` then has one definition."""
+        for i, st in enumerate(stmts):
+            rest = stmts[i + 1:]
+            if not isinstance(st, ast.If) or not rest or len(rest) > 6:
+                continue
+            selected = self._assigned_simple([st]) & self._called_locals(rest)
+            if not selected or any(isinstance(x, (ast.FunctionDef, ast.AsyncFunctionDef, ast.ClassDef)) for r in rest for x in ast.walk(r)):
+                continue
+
+            def falls(block):
+                if not block:
+                    return True
+                last = block[-1]
+                if isinstance(last, (ast.Return, ast.Raise, ast.Break, ast.Continue)):
+                    return False
+                if isinstance(last, ast.If) and last.orelse:
+                    return falls(last.body) or falls(last.orelse)
+                return True
+
+            def sink(block):
+                if not falls(block):
+                    return block
+                if block and isinstance(block[-1], ast.If) and (not falls(block[-1].body) or not falls(block[-1].orelse) or block[-1].orelse):
+                    last = block[-1]
+                    return block[:-1] + [ast.copy_location(ast.If(test=last.test, body=sink(list(last.body)), orelse=sink(list(last.orelse))), last)]
+                return block + _clone(rest)
+            new_if = ast.copy_location(ast.If(test=st.test, body=sink(list(st.body)), orelse=sink(list(st.orelse))), st)
+            ast.fix_missing_locations(new_if)
+            return stmts[:i] + [new_if]
+        return stmts
+
+    def _propagate_callable_locals(self, stmts):
+        """straight-line ``f = obj.method`` ... ``f(x)`` in one block -> ``obj.method(x)`` (until f is re-bound)"""
+        for i, st in enumerate(stmts):
+            if not (isinstance(st, ast.Assign) and len(st.targets) == 1 and isinstance(st.targets[0], ast.Name) and isinstance(st.value, (ast.Attribute, ast.Name))
+                    and dotted(st.value)):
+                continue
+            f = st.targets[0].id
+            later = stmts[i + 1:]
+            if f not in self._called_locals(later):
+                continue
+            for j, nxt in enumerate(later):
+                if any(isinstance(x, ast.Name) and x.id == f and isinstance(x.ctx, (ast.Store, ast.Del)) for x in ast.walk(nxt)):
+                    break
+                if any(n in written_names(x) for x in ast.walk(nxt) if isinstance(x, ast.stmt) for n in [dotted(st.value)]):
+                    break
+
+                class C(ast.NodeTransformer):
+                    def visit_Call(self_, node):
+                        self_.generic_visit(node)
+                        if isinstance(node.func, ast.Name) and node.func.id == f:
+                            node.func = ast.copy_location(_clone(st.value), node.func)
+                        return node
+
+                    def visit_FunctionDef(self_, node):
+                        return node
+                    visit_Lambda = visit_AsyncFunctionDef = visit_FunctionDef
+                stmts[i + 1 + j] = ast.fix_missing_locations(C().visit(nxt))
+        return stmts
+
     def _stmt(self, st, level):
+        # statement-level normalisations (before anything is inlined into them)
+        for rewrite in (self._split_tuple_assign, self._unroll_for, self._attr_builtins, self._expand_for, self._expand_with) if self.extended else ():
+            try:
+                new = rewrite(st)
+            except _NoInline as e:
+                self.refused[src(getattr(st, "iter", None) or (st.items[0].context_expr if isinstance(st, ast.With) else st))[:60]] = str(e)
+                new = None
+            if new is not None:
+                for n in new:
+                    ast.copy_location(n, st)
+                    ast.fix_missing_locations(n)
+                return self._stmts(new, level + (0 if rewrite in (self._split_tuple_assign, self._unroll_for, self._attr_builtins) else 1)) if level < self.depth + 2 else new
         # recurse into compound statements first
         for field in ("body", "orelse", "finalbody"):
             if isinstance(getattr(st, field, None), list) and not isinstance(st, (ast.FunctionDef, ast.AsyncFunctionDef, ast.ClassDef, ast.Lambda)):
@@ -1690,6 +2179,33 @@ class Inliner:
             self._views[id(func)] = v
         return v
 
+    def not_followed(self, func) -> List[str]:
+        """What the view of ``func`` still contains that the normaliser could not read through: calls of private helpers of the analysed classes that
+        the rules do not know, loops over private generator helpers, ``with`` blocks on context managers defined in the module.  Empty = every
+        statement the function executes (up to calls of methods the rules know by name) is in the view."""
+        v = self.view(func)
+        out = []
+        for x in walk_local(v):
+            if isinstance(x, ast.Call):
+                r = None
+                if isinstance(x.func, ast.Attribute) and x.func.attr not in self.known:
+                    recv = x.func.value
+                    if (isinstance(recv, ast.Name) and (recv.id in ("self", "cls") or recv.id in {c.name for c in self.classes})) or src(recv) in ("type(self)", "self.__class__"):
+                        h = self._lookup(x.func.attr)
+                        if h is not None and x.func.attr.startswith("_") and not x.func.attr.startswith("__"):
+                            r = f"call of the private helper {x.func.attr}() was not inlined" + (f" ({self.refused[x.func.attr]})" if x.func.attr in self.refused else "")
+                if r:
+                    out.append(r)
+            if isinstance(x, ast.With):
+                for it in x.items:
+                    e = it.context_expr
+                    if isinstance(e, ast.Call) and isinstance(e.func, ast.Name) and any(
+                            isinstance(n, (ast.ClassDef, ast.FunctionDef)) and n.name == e.func.id and
+                            (isinstance(n, ast.FunctionDef) or any(isinstance(m, ast.FunctionDef) and m.name == "__enter__" for m in n.body))
+                            for n in self.mod.tree.body):
+                        out.append(f"with {src(e)[:50]}: context manager defined in the module was not expanded")
+        return sorted(set(out))
+
     def callers(self):
         """{helper name: set of method names (of the classes) that call it}"""
         out: Dict[str, Set[str]] = {}
@@ -1737,18 +2253,45 @@ def resolve_locals(func, expr, depth: int = 3):
     return resolve_locals(func, new, depth - 1) if src(new) != src(expr) else new
 
 
+def expand_calls(mod, expr, depth: int = 2):
+    """A copy of ``expr`` in which calls of module-level functions whose body is an if/return expression are replaced by that expression (with the
+    arguments substituted), so the value can be evaluated without knowing the helper by name."""
+    funcs = {n.name: n for n in mod.tree.body if isinstance(n, ast.FunctionDef) and not n.decorator_list
+             and not (n.args.vararg or n.args.kwarg or n.args.kwonlyargs)}
+
+    class T(ast.NodeTransformer):
+        def visit_Call(self, node):
+            self.generic_visit(node)
+            h = funcs.get(node.func.id) if isinstance(node.func, ast.Name) else None
+            if h is None or node.keywords or len(node.args) != len(h.args.args):
+                return node
+            try:
+                body = _as_expression(_clone(h.body))
+            except _NoInline:
+                return node
+            return _Subst(dict(zip([a.arg for a in h.args.args], node.args))).visit(body)
+
+    out = _clone(expr)
+    for _ in range(depth):
+        new = T().visit(out)
+        if src(new) == src(out):
+            break
+        out = new
+    return ast.fix_missing_locations(out)
+
+
 class Views:
     """Per-module Inliners for a checker: ``known`` = {module path: {class name: [method names the rules know]}}."""
 
-    def __init__(self, ctx, known: Dict[str, Dict[str, Sequence[str]]]):
-        self.ctx, self.known = ctx, known
+    def __init__(self, ctx, known: Dict[str, Dict[str, Sequence[str]]], extended: bool = False):
+        self.ctx, self.known, self.extended = ctx, known, extended
         self._inl: Dict[str, Inliner] = {}
 
     def inliner(self, rel) -> Inliner:
         if rel not in self._inl:
             table = self.known.get(rel, {})
             names = {n for ns in table.values() for n in ns}
-            self._inl[rel] = Inliner(self.ctx.mod(rel), list(table), names)
+            self._inl[rel] = Inliner(self.ctx.mod(rel), list(table), names, extended=self.extended)
         return self._inl[rel]
 
     def f(self, rel, qual):
@@ -1772,3 +2315,94 @@ class Views:
         out = [(n, inl.view(m)) for n, m in ms.items() if n in known]
         out += [(n, m) for n, m in ms.items() if n not in known and (n not in inl.inlined or n in inl.refused)]
         return out
+
+
+class Guarded:
+    """A view of the run context through which a VIOLATION of a path / shape rule is only recorded for a function the normaliser read completely.
+
+    The structural rules conclude from what is (not) in the normalised view of a function.  When that view still contains something the normaliser
+    could not read through - a private helper it refused to inline, a loop over a generator helper, a ``with`` on a context manager of the module -
+    part of what the function does is invisible, and "the guard / call / reset is not there" is not a fact about the code.  In that case the verdict
+    is withheld: a note says which rule abstained on which construct and why, and the clause is left to the evaluated (bounded) rules, which run
+    the helper instead of reading it.  Rules whose kind is bounded are never withheld."""
+
+    def __init__(self, ctx, kinds: Optional[Dict[str, str]] = None, inliners: Optional[Callable[[], Iterable["Inliner"]]] = None):
+        self.__dict__["_ctx"] = ctx
+        self.__dict__["_kinds"] = kinds or {}
+        self.__dict__["_inliners"] = inliners
+        self.__dict__["_why"] = {}
+
+    def __getattr__(self, name):
+        return getattr(self.__dict__["_ctx"], name)
+
+    def __setattr__(self, name, value):
+        setattr(self.__dict__["_ctx"], name, value)
+
+    def _kind(self, rule: str) -> str:
+        best, kind = -1, self._kinds.get("*", "structural")
+        for k, v in self._kinds.items():
+            if k != "*" and rule.startswith(k) and len(k) > best:
+                best, kind = len(k), v
+        return kind
+
+    def _all_inliners(self):
+        out = list(self._inliners()) if self._inliners else []
+        v = self.__dict__.get("_views_d")
+        if v is not None:
+            out.extend(v._inl.values())
+        return out
+
+    def not_followed(self, construct: str) -> List[str]:
+        head = construct.split(" | ")[0].strip()
+        if head in self._why:
+            return self._why[head]
+        parts = head.split(".")
+        out: List[str] = []
+        if len(parts) >= 2:
+            cname, mname = parts[-2], parts[-1]
+            for inl in self._all_inliners():
+                for c in inl.classes:
+                    if c.name == cname:
+                        m = next((x for x in c.body if isinstance(x, ast.FunctionDef) and x.name == mname), None)
+                        if m is not None:
+                            out = inl.not_followed(m)
+        self._why[head] = out
+        return out
+
+    def violation(self, rule: str, construct: str, fails: str, witness: str = "") -> None:
+        if self._kind(rule) != "bounded":
+            why = self.not_followed(construct)
+            if why:
+                self._ctx.note(f"{rule}: verdict withheld on {construct}: the function was not read completely ({'; '.join(why)}); it would have been: {fails[:160]}")
+                return
+        self._ctx.violation(rule, construct, fails, witness)
+
+    def check(self, cond, rule: str, construct: str, fails: str, detail: str = "", witness: str = "") -> bool:
+        if cond:
+            self._ctx.ok(rule, construct, detail)
+        else:
+            self.violation(rule, construct, fails, witness)
+        return bool(cond)
+
+
+def abstain_where_twinned(ctx, structural_sections: Iterable[str], twin_sections_prefix: Iterable[str], twin_rules_prefix: Iterable[str], minimum: int) -> None:
+    """Anchor errors recorded by ``ctx.section`` for structural rule groups become notes when the evaluated (bounded) twins of those groups ran to the
+    end: no error in any twin section and at least ``minimum`` obligations generated by the twin rules.  The clause is then decided by running the code,
+    and "the statement the structural rule is anchored on has moved / was renamed" is reported as what it is - the structural layer abstaining."""
+    structural_sections, twin_sections_prefix, twin_rules_prefix = list(structural_sections), tuple(twin_sections_prefix), tuple(twin_rules_prefix)
+    errs = ctx.errors
+
+    def sec(e):
+        return e[1:e.index("]")] if e.startswith("[") and "]" in e else ""
+    if any(sec(e).startswith(twin_sections_prefix) for e in errs):
+        return
+    n = sum(1 for o in ctx.obligations if o["rule"].startswith(twin_rules_prefix))
+    if n < minimum:
+        return
+    keep = []
+    for e in errs:
+        if sec(e) in structural_sections and "anchor not found" in e:
+            ctx.note(f"structural layer abstains ({e}); the clause is decided by the evaluated rules ({n} obligations of {', '.join(twin_rules_prefix)})")
+        else:
+            keep.append(e)
+    errs[:] = keep
